@@ -72,4 +72,49 @@ def instantIn (z : ZoneTab) (p : Parsed) : Option Int :=
   | .name _ => none
   | .default => some (dateIn z w)
 
+/-! ## round 4c: the stateless stages relative to a table, and ONE compiled stage over a history
+
+`kfTimeAttr` / `kfTimeFormat` build their closure once per compiled expression; a log is then a
+HISTORY of evaluations of that one closure.  The closures capture `args`, `tz` and `attrFunc` /
+`format` – all bound once, none written (`Gen.C18.stageCaptures`, `stageWrites`) – so the memory of
+the stage is `Unit` here.  The machine form makes the claim "the answer depends on the current
+argument only" a statement (and the op `zh` runs the real stage on such histories). -/
+
+/-- The closure of `kfTimeAttr`, the zone given as a table: one evaluation. -/
+def timeAttrStageIn (z : ZoneTab) (attr arg : Bytes) : Out :=
+  match atoi arg with
+  | none => .val errorNum
+  | some unix =>
+    if !yearInRange unix (z.lookup unix).off then .unmodelled "year-range"
+    else match timeAttrIn z attr unix with
+      | some b => .val b
+      | none => .unmodelled "no-such-attr"
+
+/-- The closure of `kfTimeFormat`, the zone given as a table (offset AND abbreviation from the table). -/
+def timeFormatStageIn (z : ZoneTab) (layout arg : Bytes) : Out :=
+  match atoi arg with
+  | none => .val errorNum
+  | some unix =>
+    if !yearInRange unix (z.lookup unix).off then .unmodelled "year-range"
+    else .val (formatLayout layout (timeVIn z unix))
+
+/-- A compiled stage as a machine: `σ` is what the closure can remember between evaluations. -/
+structure StageM (σ : Type) where
+  step : σ → Bytes → Out × σ
+
+/-- The answers of one compiled stage on a sequence of arguments, in order. -/
+def StageM.run {σ : Type} (m : StageM σ) : σ → List Bytes → List Out
+  | _, [] => []
+  | s, a :: r => (m.step s a).1 :: m.run (m.step s a).2 r
+
+/-- `{timeattr {0} attr zone}` compiled once: nothing to remember. -/
+def timeAttrM (z : ZoneTab) (attr : Bytes) : StageM Unit := ⟨fun s a => (timeAttrStageIn z attr a, s)⟩
+
+/-- `{timeformat {0} layout zone}` compiled once. -/
+def timeFormatM (z : ZoneTab) (layout : Bytes) : StageM Unit := ⟨fun s a => (timeFormatStageIn z layout a, s)⟩
+
+/-- The first second of the 86400-second window that starts at what the wall clock of `u` shows as
+midnight: `u − (h·3600 + m·60 + s)`.  (On a day with a change of offset this is NOT the local day.) -/
+def dayWindowStart (z : ZoneTab) (u : Int) : Int := u - localSecs u (z.lookup u).off
+
 end Rare.C18
